@@ -226,6 +226,12 @@ type vuHistCfg struct {
 	// exercised over long histories: at most one change between two blocks and the limit is
 	// never lowered below the current maximum size.
 	avoidKnown bool
+	// tagSensitive appends a unique "#s<n>" tag to the value of about half of the sensitive
+	// fields; a tagged value is never written as a non-sensitive field, so finding it in any
+	// table is attributable to exactly one sensitive field.
+	tagSensitive bool
+	onEmit       func(d *Decoder, f HeaderField)                            // inside the Decoder's emit callback
+	onWrite      func(e *Encoder, blk, idx int, f HeaderField, before bool) // around every Encoder.WriteField
 }
 
 type vuBlock struct {
@@ -296,7 +302,13 @@ func vuRunHistory(rng *rand.Rand, cfg vuHistCfg, onBlock func(b *vuBlock) bool) 
 	var wire writeCollector
 	enc := NewEncoder(&wire)
 	var got []HeaderField
-	dec := NewDecoder(4096, func(f HeaderField) { got = append(got, f) })
+	var dec *Decoder
+	dec = NewDecoder(4096, func(f HeaderField) {
+		got = append(got, f)
+		if cfg.onEmit != nil {
+			cfg.onEmit(dec, f)
+		}
+	})
 	dec.SetAllowedMaxDynamicTableSize(allowed)
 	ref := hpackref.NewDecoder(4096)
 	ref.Allowed = int64(allowed)
@@ -306,6 +318,7 @@ func vuRunHistory(rng *rand.Rand, cfg vuHistCfg, onBlock func(b *vuBlock) bool) 
 	pending := false
 	var last HeaderField
 	haveLast := false
+	tagN := 0
 	for i := 0; i < nBlocks; i++ {
 		for _, op := range plan[i] {
 			if op.Limit {
@@ -336,13 +349,25 @@ func vuRunHistory(rng *rand.Rand, cfg vuHistCfg, onBlock func(b *vuBlock) bool) 
 				f.Name, f.Value = alpha.pick(rng)
 			}
 			f.Sensitive = rng.Float64() < cfg.pSensitive
+			if strings.Contains(f.Value, "#s") {
+				f.Sensitive = true // a tagged value stays sensitive-only
+			} else if cfg.tagSensitive && f.Sensitive && rng.IntN(2) == 0 {
+				tagN++
+				f.Value = fmt.Sprintf("%s#s%d", f.Value, tagN)
+			}
 			in = append(in, f)
 			last, haveLast = f, true
 		}
 		wire.buf = wire.buf[:0]
-		for _, f := range in {
+		for j, f := range in {
+			if cfg.onWrite != nil {
+				cfg.onWrite(enc, i, j, f, true)
+			}
 			if err := enc.WriteField(f); err != nil {
 				panic("WriteField on an in-memory writer failed: " + err.Error())
+			}
+			if cfg.onWrite != nil {
+				cfg.onWrite(enc, i, j, f, false)
 			}
 		}
 		b := &vuBlock{Idx: i, Ops: plan[i], In: in, Wire: append([]byte(nil), wire.buf...), Enc: enc, Dec: dec, Ref: ref,
@@ -583,6 +608,26 @@ func (g *vuGen) rep(dst []byte) []byte {
 		dst = hpackref.AppendSizeUpdate(dst, v, g.pad())
 	default:
 		if rng.Float64() < g.hostile {
+			if rng.IntN(2) == 0 {
+				// an integer of 2^64 or more whose low 64 bits are a perfectly valid value
+				chunks, hi := 9+rng.IntN(3), byte(2*(1+rng.IntN(60)))
+				switch rng.IntN(4) {
+				case 0: // literal, name index = valid static index + k*2^64
+					dst = hpackref.AppendIntWrapped(dst, 4, byte(rng.IntN(2))<<4, 15+uint64(rng.IntN(47)), chunks, hi)
+					dst = hpackref.AppendString(dst, "v", false, 0)
+				case 1: // size update
+					dst = hpackref.AppendIntWrapped(dst, 5, 0x20, 31+uint64(rng.IntN(30)), chunks, hi)
+				case 2: // literal with indexing, name index 63..
+					dst = hpackref.AppendIntWrapped(dst, 6, 0x40, 63+uint64(rng.IntN(3)), chunks, hi)
+					dst = hpackref.AppendString(dst, "v", false, 0)
+				default: // string length 127 + k*2^64 followed by 127 octets
+					dst = append(dst, 0x00)
+					dst = hpackref.AppendIntWrapped(dst, 7, 0, 127, chunks, hi)
+					dst = append(dst, strings.Repeat("n", 127)...)
+					dst = hpackref.AppendString(dst, "v", false, 0)
+				}
+				break
+			}
 			for i := 1 + rng.IntN(4); i > 0; i-- {
 				dst = append(dst, byte(rng.Uint32()))
 			}
@@ -616,4 +661,11 @@ func vuSplit(rng *rand.Rand, b []byte, k int) [][]byte {
 		prev = c
 	}
 	return append(out, b[prev:])
+}
+
+func vuHex(b []byte) string {
+	if len(b) > 1500 {
+		return fmt.Sprintf("%x…(%d octets)", b[:1500], len(b))
+	}
+	return fmt.Sprintf("%x", b)
 }
